@@ -96,3 +96,55 @@ pub mod x86 {
         }
     }
 }
+
+// Conformance of the modelled wasm32 simd128 intrinsics (HH/Intrin/Wasm.lean): `intrin w<name> <imm> <operands>` on the
+// wasm runners (Miri, and a real engine through harness/nodewasm).  A v128 is the little-endian image of the u128.
+#[cfg(all(target_family = "wasm", target_feature = "simd128"))]
+pub mod wasm {
+    use core::arch::wasm32::*;
+
+    fn to(v: u128) -> v128 {
+        unsafe { core::mem::transmute(v) }
+    }
+    fn from(v: v128) -> u128 {
+        unsafe { core::mem::transmute(v) }
+    }
+
+    pub fn run(name: &[u8], imm: usize, a: &[u128]) -> Option<u128> {
+        let g = |i: usize| a.get(i).copied().unwrap_or(0);
+        let r = match name {
+            b"wadd" => u64x2_add(to(g(0)), to(g(1))),
+            b"wsub" => u64x2_sub(to(g(0)), to(g(1))),
+            b"wmul" => u64x2_mul(to(g(0)), to(g(1))),
+            b"wand" => v128_and(to(g(0)), to(g(1))),
+            b"wor" => v128_or(to(g(0)), to(g(1))),
+            b"wxor" => v128_xor(to(g(0)), to(g(1))),
+            b"wandnot" => v128_andnot(to(g(0)), to(g(1))),
+            b"wshr64" => u64x2_shr(to(g(0)), imm as u32),
+            b"wshl64" => u64x2_shl(to(g(0)), imm as u32),
+            b"wshr32" => u32x4_shr(to(g(0)), imm as u32),
+            b"wshl32" => u32x4_shl(to(g(0)), imm as u32),
+            b"wrepl" => match imm {
+                0 => i32x4_replace_lane::<0>(to(g(0)), g(1) as u32 as i32),
+                1 => i32x4_replace_lane::<1>(to(g(0)), g(1) as u32 as i32),
+                2 => i32x4_replace_lane::<2>(to(g(0)), g(1) as u32 as i32),
+                3 => i32x4_replace_lane::<3>(to(g(0)), g(1) as u32 as i32),
+                _ => return None,
+            },
+            b"wzip" => u8x16_shuffle::<3, 12, 2, 5, 1, 14, 0, 15, 11, 4, 10, 13, 6, 9, 7, 8>(to(g(0)), to(g(1))),
+            b"wrot" => u32x4_shuffle::<1, 0, 3, 2>(to(g(0)), to(g(1))),
+            b"wsh12" => u64x2_shuffle::<1, 2>(to(g(0)), to(g(1))),
+            b"wext" => match imm {
+                0 => return Some(u64x2_extract_lane::<0>(to(g(0))) as u128),
+                1 => return Some(u64x2_extract_lane::<1>(to(g(0))) as u128),
+                _ => return None,
+            },
+            #[cfg(hh_nodewasm)]
+            b"wswz" => u8x16_swizzle(to(g(0)), to(g(1))),
+            b"wmk64" => u64x2(g(0) as u64, g(1) as u64),
+            b"wmk32" => u32x4(g(0) as u32, g(1) as u32, g(2) as u32, g(3) as u32),
+            _ => return None,
+        };
+        Some(from(r))
+    }
+}
